@@ -437,10 +437,11 @@ class Exporter:
         elif isinstance(node.token, (NoteRestToken, ChordToken)):
             return False
         elif from_stage < to_stage:
-            for child in node.children:
-                if self.is_signature_cancelled(signature_node, child, from_stage + 1, to_stage):
-                    return True
-            return False
+            # after a split, the signature is only cancelled if every sub-spine re-states it before its first note
+            return len(node.children) > 0 and all(
+                self.is_signature_cancelled(signature_node, child, from_stage + 1, to_stage)
+                for child in node.children)
+        return False
 
 
 def get_kern_from_ekern(ekern_content: str) -> str:
